@@ -39,12 +39,20 @@ def trees(k, leaves=LEAVES, un=UN, bins=BIN, memo=None):
 
 class Em:
     """emits C++ and AST text; scalar positions are numbered in traversal order so that every position gets its own value"""
-    def __init__(self):
+    def __init__(self, override=None):
         self.k = 0
+        self.override = override or {}
 
     def scal(self, ty):
         i = self.k
         self.k += 1
+        if i in self.override:
+            n, d = self.override[i]
+            if ty == 'T':
+                return 'C.t(%d, %d)' % (n, d), 'mq(%d, %d)' % (n, d), '%d/%d' % (n, d) if d != 1 else str(n)
+            if ty == 'u':
+                return 'static_cast<size_t>(%d)' % n, 'mq(%d)' % n, '%du' % n
+            return ('(%d)' % n) if n < 0 else str(n), 'mq(%d)' % n, '%di' % n
         if ty == 'T':
             n, d = TS[i % len(TS)]
             return 'C.t(%d, %d)' % (n, d), 'mq(%d, %d)' % (n, d), '%d/%d' % (n, d) if d != 1 else str(n)
@@ -85,6 +93,8 @@ class Em:
 
 
 def has_v(t):
+    if t[0] == '@':
+        return has_v(t[1])
     return t[0] == 'V' or any(has_v(x) for x in t[1:] if isinstance(x, tuple))
 
 
@@ -108,9 +118,28 @@ FIXED = [
 ]
 
 
+# special scalar values (fast paths are keyed on them): every one-scalar tree is generated once per value
+SPECIAL = {'T': [(2, 1), (1, 1), (0, 1), (-1, 1), (1, 3)], 'i': [(2, 1), (1, 1), (0, 1), (-1, 1)], 'u': [(3, 1), (1, 1), (0, 1)]}
+
+
+def k1_variants():
+    out = []
+    for t in trees(0) + trees(1):
+        h = t[0]
+        if h in LEAVES or h == 'neg' or h in BIN:
+            out.append(t)
+            continue
+        f, ty = h[:-1], h[-1]
+        for v in SPECIAL[ty]:
+            if f == 'divc' and v[0] == 0:
+                continue
+            out.append(('@', t, {0: v}))
+    return out
+
+
 def select(mode):
     if mode == 'k1':
-        return trees(0) + trees(1)
+        return k1_variants()
     if mode == 'k2':
         return trees(2)
     if mode == 'red3':
@@ -136,7 +165,10 @@ def main():
         chunk = ts[tu * per:(tu + 1) * per]
         lines = ['// generated by gen/gen_exprs.py mode=%s tu=%d/%d: %d trees' % (mode, tu, ntus, len(chunk)), '#include "c05_runtime.h"']
         for i, t in enumerate(chunk):
-            e = Em()
+            ov = None
+            if t[0] == '@':
+                t, ov = t[1], t[2]
+            e = Em(ov)
             c, a, d = e.go(t)
             lines.append('static void t%d(Ctx &C) { run_tree(C, "%s", %s, [&](const VS &v) { return %s; }, [&]() { return %s; }); }' % (i, d, 'true' if has_v(t) else 'false', c, a))
         lines.append('void run_all(Ctx &C) {')
